@@ -397,6 +397,13 @@ func (g *gen) declareVars(c *Case) {
 	if cfg.maxVars > 0 {
 		nv = r.Intn(cfg.maxVars + 1)
 	}
+	// "shared text": variables of DIFFERENT types are given the same text where it is legal for both ("10" is a number, a
+	// string, an account name and an asset; "USD" a string, an account name and an asset; a string may hold the text of any
+	// other variable): the meaning of a text is decided by the declared type of each variable, one by one
+	shared := ""
+	if nv >= 2 && r.Intn(5) == 0 {
+		shared = pick(r, []string{"10", "USD"})
+	}
 	for vi := 0; vi < nv; vi++ {
 		t := pick(r, []string{"account", "asset", "number", "monetary", "portion", "string", "account", "monetary"})
 		if cfg.monVars && r.Intn(2) == 0 {
@@ -430,9 +437,30 @@ func (g *gen) declareVars(c *Case) {
 		case "string":
 			val = J{"t": "str", "v": pick(r, []string{"k", "s1", "s2"})}
 		}
+		sharedRaw := ""
+		if shared != "" {
+			switch {
+			case t == "account":
+				val, sharedRaw = J{"t": "acct", "v": shared}, shared
+			case t == "asset":
+				val, sharedRaw = J{"t": "asset", "v": shared}, shared
+			case t == "number" && shared == "10":
+				val, sharedRaw = J{"t": "num", "v": 10}, shared
+			case t == "string":
+				val, sharedRaw = J{"t": "str", "v": shared}, shared
+				for _, prev := range g.vars { // the text of another variable, whatever its type
+					if other, ok := c.RawVars[prev["name"].(string)]; ok && r.Intn(2) == 0 {
+						val, sharedRaw = J{"t": "str", "v": other}, other
+						break
+					}
+				}
+			}
+		}
 		origin := J{"k": "none"}
 		usable := val["t"] != "err"
 		switch {
+		case sharedRaw != "":
+			c.RawVars[name] = sharedRaw
 		case cfg.origins && t == "monetary" && r.Intn(3) == 0:
 			acc := g.expr("account", "", 0)
 			if vs := g.varsOf("account"); len(vs) > 0 && r.Intn(2) == 0 {
